@@ -107,6 +107,23 @@ def gen(tier, rng):
                     out.append(inject_case(rng, req, fulls, mode, devseed, policy, i, ("w", sw), "status"))
                 for e in others:
                     out.append(inject_case(rng, req, fulls, mode, devseed, policy, i, e, "outcome"))
+                # status-OK answers that are NOT the well-formed answer of this step: the happy answer with its
+                # operation byte changed, cut short, or extended
+                ent = script[i] if i < len(script) else ""
+                if isinstance(ent, str) and ent.startswith("d") and len(ent) >= 7:
+                    good = bytes.fromhex(ent[1:])
+                    muts = set()
+                    for opb in (good[2] ^ 1, good[2] ^ 0x80, 0, 0xFF):
+                        muts.add(good[:2] + bytes([opb & 0xFF]) + good[3:])
+                    for cut in (3, 4, len(good) - 1, len(good) - 2):
+                        if 0 < cut < len(good):
+                            muts.add(good[:cut])
+                    muts.add(good + b"\x00")
+                    if len(good) > 3:
+                        muts.add(good[:3] + bytes([good[3] ^ 0xFF]) + good[4:])
+                    for mb in sorted(muts):
+                        if mb != good:
+                            out.append(inject_case(rng, req, fulls, mode, devseed, policy, i, ("d", mb.hex()), "malformed-ok"))
             # …and after the manager served another command (block operations: after the other block operation)
             if mode == "v5":
                 cmd = req.get("command")
